@@ -187,7 +187,7 @@ def _probe_variant(exe, cands, progs, tag):
     prepare_spec()
     probe = Run("C00", "quick", "model_checking")
     for k, cand in enumerate(cands):
-        conf = dict(progs=progs, NV=1, conds=C1, DbgFixed=True, CvFix=True, TaFix=True, TaWoke=True, GenFix=True)
+        conf = dict(progs=progs, NV=1, conds=C1, DbgFixed=True, CvFix=True, TaFix=True, TaWoke=True, GenFix=True, MwFix=True)
         conf.update(cand)
         out = run_config(probe, exe, "%s_probe_%d" % (tag, k), conf, [], workers=2, prop="C00")
         try:
@@ -252,9 +252,30 @@ def detect_genfix(exe):
     return _genfix
 
 
+_mwfix = None
+_mwfix_viols = []       # what the scripted schedule of detect_mwfix showed on the code under test (a real execution: reported by C02 / C06)
+
+
+def detect_mwfix(exe):
+    """does a reader-mode nsync_mu_wait that releases the last read lock wake the queued writer when a designated waker existed at the time it
+    queued itself but not any more (defect 6.10)?  Observed with one scripted coarse schedule on the code under test (harness mode `coarse`):
+    writer A holds, reader X queues, A unlocks (X is woken: designated waker), reader T takes a read lock, A locks again and queues, T enters
+    nsync_mu_wait on a false condition and takes the spinlock, X acquires, releases and finishes, T releases and sleeps.  Is A asleep too?"""
+    global _mwfix
+    if _mwfix is None:
+        from muconfigs import mwt, C1
+        conf = dict(progs=[P("L", "U", "L", "U"), P("R", "RU"), P("R", mwt(1), "RU")], NV=1, conds=C1)
+        res = run_harness_env(exe, ["coarse", muconf.init_line(conf), "1c,2b,1c,3c,1b,3s,2f,3b", REPLAYS], dict(os.environ, VERIF_PROP="C06"))
+        _mwfix_viols.extend(res["viols"])
+        line = [l for l in res["lines"] if l.startswith("COARSE")]
+        m = re.search(r"asleep=(\d*)", line[0]) if line else None
+        _mwfix = not (m and "1" in m.group(1))
+    return _mwfix
+
+
 def variants(exe):
     """the spec parameters that name a variant of the code (a defect and its repair); observed from the code under test, never assumed"""
-    return {"DbgFixed": detect_dbgfixed(exe), "CvFix": detect_cvfix(exe), "TaFix": detect_tafix(exe), "TaWoke": detect_tawoke(exe), "GenFix": detect_genfix(exe)}
+    return {"DbgFixed": detect_dbgfixed(exe), "CvFix": detect_cvfix(exe), "TaFix": detect_tafix(exe), "TaWoke": detect_tawoke(exe), "GenFix": detect_genfix(exe), "MwFix": detect_mwfix(exe)}
 
 
 def with_variants(conf, exe):
@@ -313,9 +334,13 @@ def run_family(run, exe, prop, configs, parallel=5, workers=3, env=None, cap_tou
     import concurrent.futures as cf
     prepare_spec()
     var = variants(exe)
-    run.cov["spec_parameters_from_code"] = {"DbgFixed": var["DbgFixed"], "CvFix": var["CvFix"], "TaFix": var["TaFix"], "TaWoke": var["TaWoke"], "GenFix": var["GenFix"], "K": consts()["K"], "masks": {k: consts()[k] for k in ("WLOCK", "SPIN", "WAITING", "DESIG", "CONDB", "WRW", "LONGW", "ALLF", "RLOCK")},
+    run.cov["spec_parameters_from_code"] = {"DbgFixed": var["DbgFixed"], "CvFix": var["CvFix"], "TaFix": var["TaFix"], "TaWoke": var["TaWoke"], "GenFix": var["GenFix"], "MwFix": var["MwFix"], "K": consts()["K"], "masks": {k: consts()[k] for k in ("WLOCK", "SPIN", "WAITING", "DESIG", "CONDB", "WRW", "LONGW", "ALLF", "RLOCK")},
                                             "LTW": consts()["LTW"], "LTR": consts()["LTR"]}
 
+    if prop in ("C02", "C06"):
+        for v in _mwfix_viols:
+            if v[0] in (ORACLE_OF.get(prop, set()) | ALWAYS):
+                run.violation("%s|%s|scripted schedule mw_rd_dw" % (v[0], v[1]), v[4], v[5] + " (a reader-mode nsync_mu_wait releases the last read lock without waking the queued writer: scripted schedule of mulib.detect_mwfix)")
     exe_bin = build("h_mub") if any(c.get("Binary") for _, c in configs) else None
 
     def one(item):
@@ -448,7 +473,7 @@ def liveness_phase(run, prop, tier):
         return
     def one(name):
         conf = dict(muconfigs.FAM[name][0])
-        for k, v in (("DbgFixed", _dbgfixed), ("CvFix", _cvfix), ("TaFix", _tafix), ("TaWoke", _tawoke), ("GenFix", _genfix)):
+        for k, v in (("DbgFixed", _dbgfixed), ("CvFix", _cvfix), ("TaFix", _tafix), ("TaWoke", _tawoke), ("GenFix", _genfix), ("MwFix", _mwfix)):
             conf.setdefault(k, True if v is None else v)
         tla, cfg = muconf.write_mc(MC, "live_" + name, conf, consts(), [], spec="FairSpecU", export=False, props=["Termination"])
         return name, tlc_plain(tla, cfg, workers=3, cwd=MC, timeout=3000)
@@ -574,9 +599,10 @@ def mu_check(prop, tier, replay, extra_rule="", extra_assume=(), env=None, post=
     # oracle-only exploration of richer programs under random and priority-based schedules
     nruns = 4000 if tier == "quick" else 100000
     for i, conf in enumerate(muconfigs.RANDOM.get(prop, [])):
-        res = run_harness_env(exe, ["random", str(nruns), str(seed() + i), muconf.init_line(conf), REPLAYS], e)
-        run.add("evaluations", nruns); run.add("distinct_nontrivial", res["stats"].get("nontrivial", 0))
-        run.cov.setdefault("random", []).append({"program": i, "threads": len(conf["progs"]), "runs": nruns, "violations": len(res["viols"])})
+        nr = conf.get("_runs", 0) * (1 if tier == "quick" else 10) or nruns
+        res = run_harness_env(exe, ["random", str(nr), str(seed() + i), muconf.init_line(conf), REPLAYS], e)
+        run.add("evaluations", nr); run.add("distinct_nontrivial", res["stats"].get("nontrivial", 0))
+        run.cov.setdefault("random", []).append({"program": i, "threads": len(conf["progs"]), "runs": nr, "violations": len(res["viols"])})
         for v in res["viols"]:
             if v[0] in (ORACLE_OF.get(prop, set()) | ALWAYS):
                 run.violation("%s|%s|random %d" % (v[0], v[1], i), v[4], v[5])
